@@ -159,7 +159,7 @@ func (r *compileRun) one(scope string, a *refsem.Arch, p *seccomp.Policy, o engi
 		}
 		hh := sha256.Sum256(append(b, evs...))
 		key := fmt.Sprintf("%s:%s:%s:%x", r.ctx.ID, is.Class, scope, hh[:6])
-		rep := compileReplay{Scope: scope, Policy: pj, Event: is.Event, Class: is.Class, Staged: o.Staged, StagedVariant: o.StagedVariant % 3}
+		rep := compileReplay{Scope: scope, Policy: pj, Event: is.Event, Class: is.Class, Staged: o.Staged, StagedVariant: o.StagedVariant % 4}
 		if o.Prior != nil {
 			pr := engine.ToJSON(a, o.Prior, o.Big)
 			rep.Prior = &pr
@@ -219,12 +219,20 @@ func replayCompile(path string) int {
 		_, prior := engine.FromJSON(*f.Case.Prior)
 		fmt.Println("(compiled on a value that was assembled in the recorded earlier shape first)")
 		insts, err, pan = engine.CompileAfter(a, prior, p, f.Case.Policy.Big)
-	case f.Case.Staged && f.Case.StagedVariant%3 == 2:
+	case f.Case.Staged && f.Case.StagedVariant%4 == 3 && len(p.Syscalls) > 0:
+		fmt.Println("(compiled after a longer policy that shares the group array)")
+		arr := make([]seccomp.SyscallGroup, len(p.Syscalls), len(p.Syscalls)+1)
+		copy(arr, p.Syscalls)
+		extra := seccomp.SyscallGroup{Action: seccomp.ActionKillProcess, Names: []string{a.SortedNames()[len(a.SortedNames())/2]}}
+		prior := &seccomp.Policy{DefaultAction: p.DefaultAction, Syscalls: append(arr, extra)}
+		final := &seccomp.Policy{DefaultAction: p.DefaultAction, Syscalls: arr}
+		insts, err, pan = engine.CompileAfter(a, prior, final, f.Case.Policy.Big)
+	case f.Case.Staged && f.Case.StagedVariant%4 == 2:
 		fmt.Println("(compiled on a value that was assembled for another architecture first)")
 		insts, err, pan = engine.CompileAfterOn(a, engine.OtherArch(a), p, p, f.Case.Policy.Big)
 	case f.Case.Staged:
-		fmt.Printf("(compiled on a value that was assembled in an earlier shape first, variant %d)\n", f.Case.StagedVariant%3)
-		insts, err, pan = engine.CompileAfter(a, engine.EarlierShape(p, f.Case.StagedVariant%3), p, f.Case.Policy.Big)
+		fmt.Printf("(compiled on a value that was assembled in an earlier shape first, variant %d)\n", f.Case.StagedVariant%4)
+		insts, err, pan = engine.CompileAfter(a, engine.EarlierShape(p, f.Case.StagedVariant%4), p, f.Case.Policy.Big)
 	default:
 		insts, err, pan = engine.Compile(a, p, f.Case.Policy.Big)
 	}
